@@ -18,7 +18,7 @@ REPLAYS = os.environ.get("VERIF_REPLAYS", os.path.join(VERIF, "replays"))
 KNOWN = os.path.join(VERIF, "KNOWN_FINDINGS.txt")
 NCPU = os.cpu_count() or 4
 
-WRAP = "-Wl,--wrap=fopen64,--wrap=fclose,--wrap=read,--wrap=write,--wrap=writev,--wrap=lseek64,--wrap=ioctl,--wrap=_ZNSi4readEPcl,--wrap=_ZNSi8readsomeEPcl"
+WRAP = "-Wl,--wrap=fopen64,--wrap=fclose,--wrap=read,--wrap=write,--wrap=writev,--wrap=lseek64,--wrap=ioctl,--wrap=rename,--wrap=remove,--wrap=_ZNSi4readEPcl,--wrap=_ZNSi8readsomeEPcl"
 VARIANTS = {
     "plain": ("g++", "-O1 -g -DSIM_ALLOC_SEAM"),
     "vg": ("g++", "-O1 -g -DSIM_VALGRIND"),
@@ -187,7 +187,9 @@ def run_workers(exe, variant, prop, tier, seed, ncases, budget_s, collect):
         idx = list(range(w, ncases, nworkers))
         workers.append(Worker(exe, prop, tier, seed, idx, w, variant, scratch))
     t0 = time.time()
-    stalled_limit = 200 if variant == "vg" else 60
+    # a case normally takes well under a second; a worker silent for this long is stuck in one (hang) or the machine is
+    # badly overloaded. The limit has to stay well below the time budget or a hang would simply eat the budget.
+    stalled_limit = 200 if variant == "vg" else max(15, min(60, budget_s / 4))
     timed_out = False
     while True:
         alive = False
@@ -264,8 +266,15 @@ def run_workers(exe, variant, prop, tier, seed, ncases, budget_s, collect):
             timed_out = True
             for wk in workers:
                 if not wk.done and wk.proc and wk.proc.poll() is None:
+                    stuck_for = time.time() - wk.last_out
+                    idx = wk.cur
+                    pi, alt = wk.read_alt()
                     wk.proc.kill()
                     wk.proc.wait()
+                    if idx is not None and stuck_for > 10:
+                        # the budget ran out while this worker had been silent inside one case for a long time
+                        wk.crashes.append((idx, alt if pi == idx else -1, "watchdog", "\n".join(wk.tail[-20:])))
+                        collect(f"WORKERDIED i={idx} rc=watchdog", variant)
                 wk.done = True
             break
         time.sleep(0.02)
@@ -449,6 +458,9 @@ def check(prop, tier):
             new_violation = True
     # crashes / watchdog hits
     seen_crash_keys = set()
+    watchdog_repeats = 0
+    gates_done = 0
+    ungated = 0
     for (variant, idx, alt, rc, tail) in all_crashes:
         if idx is None:
             harness_problem.append(f"worker died outside a case (rc={rc}): {tail[-300:]}")
@@ -473,6 +485,13 @@ def check(prop, tier):
             if kk:
                 known_hit[kk] = known_hit.get(kk, 0) + 1
             continue
+        if rc == "watchdog" and any(k.startswith(f"{prop}/budget/watchdog") for k in list(seen_crash_keys) + [r[0] for r in reported]):
+            watchdog_repeats += 1   # one gated hang is enough; the others are counted
+            continue
+        if gates_done >= 8:
+            ungated += 1
+            continue
+        gates_done += 1
         kk0 = key_matches(pre, known) if pre else None
         st, gkey, path, detail = gate(exes[variant], prop, tier, seed, idx, alt, pre, shrink=(kk0 is None and len(reported) < 3))
         if rc == "watchdog" and (st == "no-repro" or (st == "nondeterministic" and "timeout" in str(detail))):
@@ -522,6 +541,8 @@ def check(prop, tier):
         "notes": notes[:20],
         "harness_problems": harness_problem,
         "slow_cases_skipped": slow_cases,
+        "watchdog_hits_after_the_first": watchdog_repeats,
+        "worker_deaths_not_gated": ungated,
         "budget_ratios_on_valid_loads": ratios,
     }
     for k, v in extra.items():
@@ -553,6 +574,10 @@ def check(prop, tier):
             return 2
     if len(res_lines) == 0:
         log("HARNESS-PROBLEM: no case was executed")
+        return 2
+    planned = sum(n for _, n in plan)
+    if not new_violation and tier == "quick" and len(res_lines) < planned / 10:
+        log(f"HARNESS-PROBLEM: only {len(res_lines)} of {planned} planned cases were executed within the time budget ({len(slow_cases)} slow cases skipped): the check explored too little to say 'held'")
         return 2
     return 1 if new_violation else 0
 
@@ -758,8 +783,8 @@ def selftest(props, n):
         for i in sorted(a):
             total += 1
             vals = {a.get(i), b.get(i), c.get(i)}
-            if d and i in d and prop != "C16":
-                vals.add(d.get(i))   # C16 heap budgets exist only in the plain variant
+            if d and i in d and prop not in ("C16", "C18"):
+                vals.add(d.get(i))   # C16 heap budgets and C18 allocation yield points exist only in the plain variant
             if len(vals) != 1:
                 bad += 1
                 if bad <= 10:
